@@ -1,64 +1,71 @@
 //! C30 harnesses: one buffer per requested range, in order, holding that range of the file.
 use crate::scheduler::submit_request_sync;
 use core::ops::Range;
-use vstd::vec::Vec;
+use vstd::cvec::Vec;
 use vnd::harness;
 
-fn any_request(k: usize, limit: u64) -> ([Range<u64>; 3], usize) {
-    let n: usize = vnd::any();
-    vnd::assume(n <= k);
-    let s: [u64; 3] = vnd::any();
-    let e: [u64; 3] = vnd::any();
-    let mut i = 0;
-    while i < 3 {
-        vnd::assume(s[i] <= e[i] && e[i] < limit);
-        i += 1;
-    }
-    // documented contract of the callers: sorted by start
-    vnd::assume(s[0] <= s[1] && s[1] <= s[2]);
-    ([s[0]..e[0], s[1]..e[1], s[2]..e[2]], n)
-}
-
-fn check(k: usize, limit: u64) {
-    let (ranges, n) = any_request(k, limit);
-    let block_size: u64 = vnd::any();
-    let max_iop: u64 = vnd::any();
-    vnd::assume(block_size < limit && max_iop >= 1 && max_iop < limit);
-    let mut req = Vec::new();
-    let mut i = 0;
-    while i < 3 {
-        if i < n {
-            req.push(ranges[i].clone());
+/// offsets are drawn from `W`-bit integers and widened, so that the upper bits are constant zero for
+/// the solver (the two 64-bit divisions per planned range then cost a W-bit divider)
+macro_rules! gen_check {
+    ($name:ident, $w:ty) => {
+        fn $name(k: usize) {
+            let n: usize = vnd::any();
+            vnd::assume(n <= k);
+            let s: [$w; 3] = vnd::any();
+            let e: [$w; 3] = vnd::any();
+            let mut i = 0;
+            while i < 3 {
+                vnd::assume(s[i] <= e[i]);
+                i += 1;
+            }
+            // documented contract of the callers: sorted by start
+            vnd::assume(s[0] <= s[1] && s[1] <= s[2]);
+            let ranges: [Range<u64>; 3] = [s[0] as u64..e[0] as u64, s[1] as u64..e[1] as u64, s[2] as u64..e[2] as u64];
+            let block_size = vnd::any::<$w>() as u64;
+            let max_iop = vnd::any::<$w>() as u64;
+            vnd::assume(max_iop >= 1);
+            let mut req = Vec::new();
+            let mut i = 0;
+            while i < 3 {
+                if i < n {
+                    req.push(ranges[i].clone());
+                }
+                i += 1;
+            }
+            let (planned, bufs) = submit_request_sync(req, block_size, max_iop);
+            vnd::cover!(n == k && planned.len() >= 3, "a request split into three reads");
+            // exactly one buffer per requested range, in request order, holding the file's bytes for that range
+            assert!(bufs.len() == n);
+            let mut j = 0;
+            while j < 3 {
+                if j < n {
+                    assert!(bufs[j].verif_is_file_range(ranges[j].start, ranges[j].end));
+                }
+                j += 1;
+            }
         }
-        i += 1;
-    }
-    let (planned, bufs) = submit_request_sync(req, block_size, max_iop);
-    vnd::cover!(n == 2 && planned.len() == 1 && ranges[1].start > ranges[0].end, "two requests coalesced across a gap");
-    vnd::cover!(n >= 1 && planned.len() >= 3, "a request split into several reads");
-    vnd::cover!(n == 2 && ranges[0].start == ranges[0].end, "an empty requested range");
-    // exactly one buffer per requested range, in request order, holding the file's bytes for that range
-    assert!(bufs.len() == n);
-    let mut j = 0;
-    while j < 3 {
-        if j < n {
-            assert!(bufs[j].verif_is_file_range(ranges[j].start, ranges[j].end));
-        }
-        j += 1;
-    }
-    // no planned read exceeds the maximum request size
-    let p: usize = vnd::any();
-    vnd::assume(p < planned.len());
-    assert!(planned[p].end - planned[p].start <= max_iop || planned[p].end - planned[p].start < 2 * max_iop);
-    core::mem::forget(planned);
-    core::mem::forget(bufs);
+    };
 }
+gen_check!(check8, u8);
+gen_check!(check16, u16);
+gen_check!(check32, u32);
 
-// @harness props=C30 tier=quick timeout=900 desc="<=2 requested ranges (empty, overlapping, contained, adjacent, far apart), offsets < 2^16, any block size / max request size: one buffer per range, in order, with that range's bytes"
-harness!(submit_two_ranges, 6, {
-    check(2, 1 << 16);
+// @harness props=C30 tier=quick timeout=600 desc="a single requested range (possibly empty) of offsets < 2^16 with any block size / max request size: exactly one buffer holding that range (split and re-joined when larger than the max request size)"
+harness!(submit_one_range_16bit, 6, {
+    check16(1);
 });
 
-// @harness props=C30 tier=thorough timeout=3000 cfg=verif_vcap16 desc="<=3 requested ranges, offsets < 2^40, up to 16 planned reads"
-harness!(submit_three_ranges, 19, {
-    check(3, 1 << 40);
+// @harness props=C30 tier=thorough timeout=1800 desc="<=2 requested ranges (empty, overlapping, contained, adjacent, far apart), offsets < 2^8, any block size / max request size: one buffer per range, in order, with that range's bytes"
+harness!(submit_two_ranges_8bit, 6, {
+    check8(2);
+});
+
+// @harness props=C30 tier=thorough timeout=3000 desc="<=2 requested ranges, offsets < 2^16"
+harness!(submit_two_ranges_16bit, 6, {
+    check16(2);
+});
+
+// @harness props=C30 tier=thorough timeout=5000 cfg=verif_ccap16 desc="<=3 requested ranges, offsets < 2^32, up to 16 planned reads"
+harness!(submit_three_ranges_32bit, 19, {
+    check32(3);
 });
